@@ -57,7 +57,11 @@ def observe(emb, a, den, nm):
     s2 = float(emb.step) ** 2
     for m in range(nm):
         name = mod_name(m)
-        if name in a._module2rect:
+        try:   # public API only: allocation_module raises KeyError for a module the allocation does not mention
+            present = bool(a.allocation_module(name))
+        except (KeyError, AssertionError):
+            present = False
+        if present:
             ar = a.area(name) / s2 * den
             k = round(ar)
             if abs(ar - k) > 1e-6 * max(1.0, abs(ar)):
